@@ -42,7 +42,7 @@ def getSuggestedTypeNames (s : SV) (parent : Definition) (name : Name) : List Na
   if !isAbstractType parent then []
   else
     let r := sugTypes s name (s.possible parent.name) ([], [], [])
-    (r.2.1 ++ r.1).mergeSort fun a b => !sugLess r.2.2 b a
+    stableSort (fun a b => !sugLess r.2.2 b a) (r.2.1 ++ r.1)
 
 /-- `getSuggestedFieldNames` -/
 def getSuggestedFieldNames (parent : Definition) (name : Name) : List Name :=
